@@ -206,6 +206,50 @@ pub const RECURSIVE_SHORTHANDS: &[&str] = &[
     "attribute a = x => b = x\nattribute b = y => c = y, a = y\n(module) @m { node @m.n attr (@m.n) a = @m }\n",
 ];
 
+
+/// Programs whose scoped variables refer to each other, possibly in a cycle (directly, through
+/// lists, calls or inherited lookups): lazy evaluation has to report the cycle, not follow it.
+fn reference_cycles(t: &mut Tape) -> String {
+    let names = ["a", "b", "c"];
+    let mut text = String::new();
+    for n in names {
+        if t.chance(1, 3) {
+            text.push_str(&format!("inherit .{}\n", n));
+        }
+    }
+    let stanzas = [("(module) @m", "m"), ("(identifier) @x", "x"), ("(expression_statement (_) @e) @s", "e"), ("(call function: (_) @f) @c", "f")];
+    let nst = 1 + t.choose(3);
+    for si in 0..nst {
+        let (pattern, cap) = stanzas[if si == 0 { 0 } else { t.choose(stanzas.len()) }];
+        text.push_str(pattern);
+        text.push_str(" {\n");
+        let k = 1 + t.choose(3);
+        for i in 0..k {
+            let name = names[i];
+            let target = names[t.choose(3)];
+            let scope = if pattern.contains("@s") && t.chance(1, 2) { "s" } else if pattern.contains("@c") && t.chance(1, 2) { "c" } else { cap };
+            let rhs = match t.weighted(&[6, 2, 2, 1, 1]) {
+                0 => format!("@{}.{}", scope, target),
+                1 => format!("[@{}.{}]", scope, target),
+                2 => format!("(is-null @{}.{})", scope, target),
+                3 => format!("[ y for y in [@{}.{}] ]", scope, target),
+                _ => "1".to_string(),
+            };
+            text.push_str(&format!("  let @{}.{} = {}\n", cap, name, rhs));
+        }
+        if t.chance(3, 4) {
+            let used = names[t.choose(3)];
+            match t.choose(3) {
+                0 => text.push_str(&format!("  node @{}.n{}\n  attr (@{}.n{}) use = @{}.{}\n", cap, si, cap, si, cap, used)),
+                1 => text.push_str(&format!("  print @{}.{}\n", cap, used)),
+                _ => text.push_str(&format!("  node @{}.n{}\n  edge @{}.n{} -> @{}.{}\n", cap, si, cap, si, cap, used)),
+            }
+        }
+        text.push_str("}\n");
+    }
+    text
+}
+
 pub fn case(tape: &[u32]) -> CaseOutcome {
     if tape.len() >= 2 && tape[0] == 0xFFFF_FF05 {
         // a libFuzzer artifact stored as bytes
@@ -215,7 +259,7 @@ pub fn case(tape: &[u32]) -> CaseOutcome {
     let (aux, main) = split_tape(tape);
     let mut t = Tape::new(&aux);
     let mut gt = Tape::new(&main);
-    let layer = t.weighted(&[6, 4, 1]);
+    let layer = t.weighted(&[12, 8, 2, 3]);
     let source = if t.chance(1, 2) { TREES[t.choose(TREES.len())].to_string() } else { pysrc::gen_source(&mut t) };
     let mut labels = vec![];
     let (text, globals) = match layer {
@@ -246,6 +290,10 @@ pub fn case(tape: &[u32]) -> CaseOutcome {
             let globals = if t.chance(1, 3) { hostile_globals(&mut t, &g.globals, &names) } else { g.globals.clone() };
             labels.push("accepted-risky-program".to_string());
             (print_canonical(&g.prog).text, globals)
+        }
+        3 => {
+            labels.push("reference-cycles".to_string());
+            (reference_cycles(&mut gt), BTreeMap::new())
         }
         _ => {
             // hand-written hazards: recursive shorthands, captures in shorthands, huge numerals
@@ -293,7 +341,7 @@ pub fn case(tape: &[u32]) -> CaseOutcome {
 
 pub fn spec(tier: &str) -> Spec {
     let mut s = Spec::new("C05", tier, 12_000, 150_000, 900);
-    s.rule = "three layers: (1) token- and byte-level mutations (delete / duplicate / swap / splice / replace / truncate, stray delimiters, huge numerals, unterminated strings and comments, multi-byte characters, keywords in wrong places) of generated programs (canonical or random layout, incl. patterns with three root captures or quantified roots) and of the reference's example files; (2) accepted generated programs with a high rate of risky choices and injected run-time faults, executed with the declared globals supplied, missing or wrongly typed; (3) hand-written hazards (recursive shorthands, captures in shorthands, out-of-range numerals and regex captures, overflow, assertion-only regexes). Sources: error-free, ERROR-bearing, empty and non-ASCII trees. Oracle: File::from_str returns; an accepted file executes in both modes under a poll bound of 200000; every load and execution error renders with Display and display_pretty to non-empty text. A panic, a process abort (signal handler writes the candidate tapes) or a poll-bound breach is a violation. Inputs with bracket nesting > 64 are discarded and counted. Non-trivial: the input was executed, or rejected by the checker (not the parser). Distinct = fingerprint of (text, source).".into();
+    s.rule = "four layers: (1) token- and byte-level mutations (delete / duplicate / swap / splice / replace / truncate, stray delimiters, huge numerals, unterminated strings and comments, multi-byte characters, keywords in wrong places) of generated programs (canonical or random layout, incl. patterns with three root captures or quantified roots) and of the reference's example files; (2) accepted generated programs with a high rate of risky choices and injected run-time faults, executed with the declared globals supplied, missing or wrongly typed; (3) hand-written hazards (recursive shorthands, captures in shorthands, out-of-range numerals and regex captures, overflow, assertion-only regexes); (4) scoped variables that refer to each other, possibly in a cycle (directly, through lists, calls, comprehensions and inherited lookups), used or unused. Sources: error-free, ERROR-bearing, empty and non-ASCII trees. Oracle: File::from_str returns; an accepted file executes in both modes under a poll bound of 2000000 (a breach is re-run under 30000000 before it is reported); every load and execution error renders with Display and display_pretty to non-empty text. A panic, a process abort (signal handler writes the candidate tapes) or a poll-bound breach is a violation. Inputs with bracket nesting > 64 are discarded and counted. Non-trivial: the input was executed, or rejected by the checker (not the parser). Distinct = fingerprint of (text, source).".into();
     s.assumptions = vec!["a run that neither polls nor returns can only be stopped by the driver's wall-clock timeout (reported as exit 2)".into()];
     s
 }
